@@ -68,6 +68,30 @@ def check_core(ctx) -> None:
     rel = f.module.rel
     want_args = ['self', 'enduse_option', 'availability', 'etau', 'nprod', 'prodwellflowrate', 'cpwater', 'ProducedTemperature', 'Tinj',
                  'ReinjTemp', 'T_chp_bottom', 'enduse_efficiency_factor', 'chp_fraction']
+    # F1 (contract at the call sites, whatever the order of the signature): an argument that is the attribute of the same name as one of
+    # the parameters (`self.chp_fraction.value`, `model.wellbores.Tinj.value`) binds to that parameter and to no other
+    low = {p.lower(): i for i, p in enumerate(f.args)}
+    for g in repo.all_functions():
+        if g.cls is None or not g.cls.name.startswith('SurfacePlant') or g.cls.name == 'SurfacePlantAGS':
+            continue
+        for c in calls_in(g.node):
+            if not (isinstance(c.func, ast.Attribute) and c.func.attr == f.name):
+                continue
+            explicit_self = bool(c.args) and isinstance(c.args[0], ast.Name) and c.args[0].id == 'self'
+            off = 0 if explicit_self else 1
+            for i, a_ in enumerate(c.args):
+                d_ = dotted_name(a_)
+                if not d_ or i + off >= len(f.args):
+                    continue
+                ps_ = d_.split('.')
+                nm_ = ps_[-2] if ps_[-1] == 'value' and len(ps_) >= 2 else ps_[-1]
+                j = low.get(nm_.lower())
+                if j is None or nm_ == 'self':
+                    continue
+                ctx.check(j == i + off, 'F1', f'{g.qualname}/{f.name}({f.args[j]})<-{nm_}', f'{g.module.rel}:{c.lineno}',
+                          f'`{norm(a_)}` is handed over in the position of parameter `{f.args[i + off]}`; the parameter of its own name is at '
+                          f'another position: after a change of the signature this caller still passes the old order, so {f.args[i + off]} '
+                          f'receives {nm_} (and the heat/electricity split of this plant no longer balances)', fact=f'{nm_} -> {f.args[j]}')
     ctx.require(f.args == want_args, f'electricity_heat_production signature changed: {f.args}')
     keys = {'HeatExtracted', 'HeatProduced', 'HeatExtractedTowardsElectricity', 'ElectricityProduced'}
     paths = [p for p in PathEnumerator(f.node.body, keys).paths() if p.ended == 'return']
